@@ -364,9 +364,19 @@ impl SensitivityListChecker<'_> {
             self.superfluous_entities.remove(&reference);
             let ent = self.root.get_ent(reference);
             if ent.is_signal() && !self.sensitivity_list.contains_key(&reference) && !remove_only {
-                self.found_entities
-                    .entry(reference)
-                    .or_insert_with(|| pos.get_pos(ctx));
+                // The statements are not visited in textual order (e.g. all conditions of
+                // an if statement before its branches); keep the textually first position
+                let pos = pos.get_pos(ctx);
+                match self.found_entities.entry(reference) {
+                    Entry::Occupied(mut entry) => {
+                        if pos < *entry.get() {
+                            entry.insert(pos);
+                        }
+                    }
+                    Entry::Vacant(entry) => {
+                        entry.insert(pos);
+                    }
+                }
             }
         }
     }
@@ -543,7 +553,7 @@ impl Searcher for SensitivityListChecker<'_> {
                     for item in &call_or_indexed.item.parameters.items {
                         match &item.actual.item {
                             ActualPart::Expression(expr) => {
-                                self.analyze_conditional_expression(expr, call_or_indexed.span, ctx)
+                                self.analyze_conditional_expression(expr, item.actual.span, ctx)
                             }
                             ActualPart::Open => {}
                         }
